@@ -52,6 +52,35 @@ def setup_env(jit):
 # ----------------------------------------------------------------------------- model driver
 
 
+class Hang(Exception):
+    """an in-process call of the real (interpreted) code did not return within its watchdog"""
+
+
+class guard:
+    """SIGALRM watchdog around in-process calls of the real code (interpreted mode: pure Python loops are
+    interruptible; compiled code is not, there the supervising parent process is the watchdog)"""
+
+    def __init__(self, seconds=20):
+        self.seconds = seconds
+
+    def _fire(self, signum, frame):
+        raise Hang(f"no return within {self.seconds}s")
+
+    def __enter__(self):
+        import signal
+
+        self.old = signal.signal(signal.SIGALRM, self._fire)
+        signal.alarm(self.seconds)
+        return self
+
+    def __exit__(self, *a):
+        import signal
+
+        signal.alarm(0)
+        signal.signal(signal.SIGALRM, self.old)
+        return False
+
+
 class Model:
     """the compiled Lean driver behind a pipe; `ask` sends a batch of request lines"""
 
